@@ -16,7 +16,7 @@ from .flow import origins
 VERIF = os.path.dirname(os.path.dirname(os.path.abspath(__file__)))
 
 POINT_CALLS = ("find_next_index", "find_next_word_end", "current_idx", "get_index_of", "get_start_index_of")
-PASS_THROUGH = ("unwrap", "unwrap_or", "unwrap_or_default", "try_from", "from", "into", "try_into", "ok", "clone", "expect", "unchecked_unwrap", "copied", "cloned", "as_ref", "deref")
+PASS_THROUGH = ("branch", "from_output", "unwrap", "unwrap_or", "unwrap_or_default", "try_from", "from", "into", "try_into", "ok", "clone", "expect", "unchecked_unwrap", "copied", "cloned", "as_ref", "deref")
 
 
 def load_seeds():
